@@ -229,6 +229,27 @@ def r4_inputs(ctx, cg):
     ctx.ok("C13.R4", ("leaspy.algo.base", "<package>"), None, "no store / in-place call through settings, dataset, data or table parameters", construct="package-wide scan of stores rooted at input parameters")
 
 
+def r5_shared_defaults(ctx):
+    """'not on which calls were made earlier': class-level / module-level containers and mutable default arguments outlive a call and
+    are shared by every algorithm / model object of the process - nothing may be written through them (directly or through an alias)."""
+    from ..effects import SharedDefaults
+    ctx.rule("C13.R5", "no write through a class-level / module-level container or a mutable default argument (package-wide, through aliases)", 10)
+    sd = SharedDefaults(ctx.ix)
+    n = 0
+    for f in ctx.ix.iter_funcs():
+        for node, desc in sd.writes(f):
+            n += 1
+            ctx.violation("C13.R5", f, node, desc + ": the change outlives the call, so later calls (on any object of the process) no longer depend only on their own inputs")
+    for ck, d in sorted(sd.class_level.items()):
+        for name, st in sorted(d.items()):
+            ctx.ok("C13.R5", (ck[0], ck[1]), st, f"class-level container {ck[1]}.{name}: read-only everywhere", construct=f"{ck[1]}.{name}")
+    for mod, d in sorted(sd.module_level.items()):
+        for name, st in sorted(d.items()):
+            ctx.ok("C13.R5", (mod, "<module>"), st, f"module-level container {name}: read-only everywhere", construct=f"{mod}.{name}")
+    for (ck, attr), why in sorted(sd.attr_alias.items()):
+        ctx.ok("C13.R5", (ck[0], ck[1]), None, f"self.{attr} may be bound to {why}: never written through", construct=f"alias self.{attr}")
+
+
 def _in_restoring_try(f, call) -> bool:
     for t in ast.walk(f.node):
         if isinstance(t, ast.Try) and t.finalbody:
@@ -245,6 +266,7 @@ def rules(ctx):
     r2_clone_only(ctx, cg, sw)
     r3_mcmc_personalize(ctx, cg, sw)
     r4_inputs(ctx, cg)
+    r5_shared_defaults(ctx)
     ctx.trust("State.clone deep-copies (C01.R5); copy.deepcopy; joblib runs each job on its own state object")
     ctx.assume("receiver types follow the annotations / naming conventions listed in sa/effects.py (NAME_TYPES)")
 
